@@ -1,7 +1,7 @@
 """Registry of checks: which harness tests decide which property, how they are built and sharded."""
 
 # packages whose non-test sources are rewritten by verif-instr in instrumented builds
-INSTR_PKGS = ["server"]
+INSTR_PKGS = ["server:all", "server/store:time", "server/store/types:time", "server/auth:time", "server/auth/token:time", "server/auth/code:time", "server/auth/basic:time", "server/auth/anon:time"]
 # packages that additionally receive harness files when <key> is built
 HARNESS_EXTRA = {}
 
@@ -56,3 +56,34 @@ reg(Check("C05", "exploration",
           engine="E4 enum",
           parts=[Part("algebra", TYPES, "^TestVerifC05Algebra$", shards=(1, 1)),
            Part("strings", TYPES, "^TestVerifC05Strings$", shards=(16, 16))]))
+
+reg(Check("C04", "model_checking",
+          "E4a: every ordered list of <=4 (quick) / <=5 (thorough) ranges with Low in [0,6], Hi in {0} or (Low,8], sorted with "
+          "RangeSorter and normalised, compared with set semantics (non-trivial = lists where the normaliser had to merge or "
+          "drop an element).",
+          ["reference = union of half-open ranges, Hi=0 meaning the single id Low"],
+          text="(being extended) bounded-exhaustive enumeration of delete-range lists against a set-semantics reference",
+          note="only the range normaliser so far; history part pending",
+          technique="bounded-exhaustive enumeration against a reference model",
+          engine="E4 enum", claimed=False,
+          parts=[Part("ranges", TYPES, "^TestVerifC04Ranges$", shards=(16, 16))]))
+
+reg(Check("C20", "exploration",
+          "ids: each 16-bit lane over all 65536 values against 3 backgrounds through every text/binary/JSON/prefixed form; every "
+          "1- and 2-position corruption (full byte range) of 3 valid encodings plus all other lengths; all ordered pairs of a "
+          "64-element corner set for P2P names; grp/chn spellings. Non-trivial = distinct non-zero ids / distinct invalid strings / "
+          "distinct unordered pairs.",
+          ["independent reference base64url codec written in the harness",
+           "a base64 string whose last character carries non-zero pad bits is an alias of the same id (Go's lenient decoder); counted, not raised"],
+          text="Bounded-exhaustive enumeration of identifier lanes, corruptions and pairs against an independent codec.",
+          note="protobuf/JSON message equivalence part is in package main (pending)",
+          technique="bounded-exhaustive enumeration against a reference model",
+          engine="E4 enum", claimed=False,
+          parts=[Part("uid", TYPES, "^TestVerifC20Uid$", shards=(8, 8)),
+                 Part("uidcorrupt", TYPES, "^TestVerifC20UidCorrupt$", shards=(11, 11)),
+                 Part("p2p", TYPES, "^TestVerifC20P2P$")]))
+
+# machinery self-tests (not a property; never in MANIFEST)
+reg(Check("SELF", "other", "machinery self tests", [], claimed=False,
+          parts=[Part("memdb", "server/store", "^TestVerifMemdb", shards=(1, 1)),
+                 Part("vsched", "server", "^TestVerifSched", instr=True, shards=(1, 1))]))
